@@ -41,10 +41,40 @@ def exc_matches(typ, handler):
     return False
 
 
+class PC:
+    """persistent path condition: a linked list of conjuncts with a cached nested-And term (one z3 node per fork)"""
+    __slots__ = ('parent', 'cond', '_term', 'n')
+    def __init__(self, parent=None, cond=None):
+        self.parent, self.cond, self._term = parent, cond, None
+        self.n = 0 if parent is None and cond is None else (parent.n if parent else 0) + 1
+    @staticmethod
+    def of(xs):
+        if isinstance(xs, PC): return xs
+        pc = PC()
+        for x in xs: pc = PC(pc, x)
+        return pc
+    def __add__(self, xs):
+        pc = self
+        for x in xs: pc = PC(pc, x)
+        return pc
+    def __iter__(self):
+        out = []; c = self
+        while c is not None and c.cond is not None:
+            out.append(c.cond); c = c.parent
+        return iter(reversed(out))
+    def __len__(self): return self.n
+    def term(self):
+        if self._term is None:
+            if self.cond is None: self._term = z3.BoolVal(True)
+            elif self.parent is None or self.parent.cond is None: self._term = self.cond
+            else: self._term = z3.And(self.parent.term(), self.cond)
+        return self._term
+
+
 class Path:
     __slots__ = ('pc', 'env', 'heap', 'trace')
     def __init__(self, pc, env, heap=None, trace=()):
-        self.pc, self.env, self.heap, self.trace = pc, env, heap if heap is not None else {}, trace
+        self.pc, self.env, self.heap, self.trace = PC.of(pc), env, heap if heap is not None else {}, trace
     def fork(self, cond=None, note=None):
         pc = self.pc + [cond] if cond is not None else self.pc
         return Path(pc, dict(self.env), dict(self.heap), self.trace + ((note,) if note else ()))
@@ -81,11 +111,12 @@ class Exec:
     def feasible(self, pc):
         self.nfeas += 1
         so = z3.Solver(); so.set('timeout', 10000)
-        so.add(*pc)
+        so.add(PC.of(pc).term())
+        if self.S.facts: so.add(*self.S.facts)
         return so.check() != z3.unsat
 
     def oblige(self, name, pc, goal, kind='post', **info):
-        self.obls.append(Obligation(f'{self.cur_short}/{name}', list(pc), goal, kind, info))
+        self.obls.append(Obligation(f'{self.cur_short}/{name}', PC.of(pc), goal, kind, info))
 
     def assume_note(self, s):
         self.assumptions.add(s)
@@ -373,7 +404,8 @@ class Exec:
         # --- 1. invariant on entry
         ns0 = Namespace(p.env, p)
         zero = z3.IntVal(0)
-        self.oblige(f'loop[{hdr}]/inv_entry', p.pc, spec.inv(S, fr.argns, ns0, zero), kind='loop')
+        for lab, g in _inv_parts(spec.inv(S, fr.argns, ns0, zero)):
+            self.oblige(f'loop[{hdr}]/inv_entry:{lab}', p.pc, g, kind='loop', label=lab)
         assigned = _assigned_names(st)
         def havoc(base):
             q = base.fork()
@@ -388,7 +420,7 @@ class Exec:
         k = fresh(I, 'iter')
         q = havoc(p)
         elem, facts = mk_elem(k)
-        q.pc = q.pc + [k >= 0] + facts + [spec.inv(S, fr.argns, Namespace(q.env, q), k)]
+        q.pc = q.pc + [k >= 0] + facts + [g for _, g in _inv_parts(spec.inv(S, fr.argns, Namespace(q.env, q), k))]
         outs = []
         if self.feasible(q.pc):
             bres = [(q, None)]
@@ -397,7 +429,8 @@ class Exec:
                 if isinstance(r, Raised): outs.append(('exc', q1, r.exc)); continue
                 for kind, r2, v in self.block(st.body, q1, fr):
                     if kind in ('fall', 'cont'):
-                        self.oblige(f'loop[{hdr}]/inv_preserved', r2.pc, spec.inv(S, fr.argns, Namespace(r2.env, r2), k + 1), kind='loop')
+                        for lab, g in _inv_parts(spec.inv(S, fr.argns, Namespace(r2.env, r2), k + 1)):
+                            self.oblige(f'loop[{hdr}]/inv_preserved:{lab}', r2.pc, g, kind='loop', label=lab, trace=r2.trace)
                     elif kind == 'brk':
                         outs.append(('fall', r2, None))
                     else:
@@ -405,7 +438,7 @@ class Exec:
         # --- 3. exit after n iterations
         n = fresh(I, 'n')
         q = havoc(p)
-        q.pc = q.pc + [n >= 0] + ([n == z3.If(length >= 0, length, 0)] if length is not None else []) + [spec.inv(S, fr.argns, Namespace(q.env, q), n)]
+        q.pc = q.pc + [n >= 0] + ([n == z3.If(length >= 0, length, 0)] if length is not None else []) + [g for _, g in _inv_parts(spec.inv(S, fr.argns, Namespace(q.env, q), n))]
         if self.feasible(q.pc):
             if st.orelse: outs += self.block(st.orelse, q, fr)
             else: outs.append(('fall', q, None))
@@ -432,7 +465,7 @@ class Exec:
     # ------------------------------------------------------------------ values
     def fresh_value(self, p, shape, name='h'):
         if isinstance(shape, tuple) and shape[0] == 'obj':
-            cell = {'__class__': shape[1]}
+            cell = {'__class__': shape[1], '__open__': True}
             for f, s in shape[2].items(): cell[f] = self.fresh_value(p, s, f'{name}.{f}')
             return VRef(p.alloc(cell), shape[1])
         if isinstance(shape, tuple) and shape[0] == 'tuple':
@@ -506,9 +539,16 @@ class Exec:
         try:
             val = ast.literal_eval(e)
         except Exception:
-            return VGlobal(f'{m.name}:{name}')
-        if isinstance(val, dict):
-            return VGlobal(f'{m.name}:{name}', pyval=val)
+            if isinstance(e, ast.Call):       # e.g. re.compile(...): an opaque immutable object
+                return VGlobal(f'{m.name}:{name}')
+            self.assume_note(f'module-level value {m.name}.{name} is not a literal: treated as unknown')
+            return VUnk(f'global {name}')
+        if isinstance(val, (dict, list, set)):
+            if not self.prog.global_is_frozen(name):
+                self.assume_note(f'module-level container {m.name}.{name} is mutated somewhere in the package: its content is unknown at call time')
+                return VUnk(f'mutable global {name}')
+            if isinstance(val, dict): return VGlobal(f'{m.name}:{name}', pyval=val)
+            return VTuple([self.lift_const(x) for x in val]) if isinstance(val, list) else VGlobal(f'{m.name}:{name}', pyval=val)
         return self.lift_const(val)
 
     def lift_const(self, c):
@@ -981,6 +1021,9 @@ class Exec:
                 if any(isinstance(d, ast.Name) and d.id == 'property' for d in fn.decorator_list):
                     return self.call_function(VFunc(qual=f'{mod}:{cname}.{attr}', bound_self=o), [], {}, p, node, fr)
                 return [(p, VFunc(qual=f'{mod}:{cname}.{attr}', bound_self=o))]
+            if cell.get('__open__'):
+                # the contract's object shape does not mention this field: its value is unknown (not an error)
+                return [(p, VUnk(f'undeclared field {attr}'))]
             return [(p, Raised(VExc('AttributeError', where=node.lineno)))]
         if isinstance(o, (VRef, VStr, VTuple)):
             return [(p, VFunc(builtin=f'<method>.{attr}', bound_self=o))]
@@ -1186,6 +1229,11 @@ class Frame:
         if self.contract is None: return None
         ordn = [id(n) for n in self._loops[hdr]].index(id(st))
         return self.contract.loop(hdr, ordn)
+
+
+def _inv_parts(inv):
+    if isinstance(inv, dict): return list(inv.items())
+    return [('inv', inv)]
 
 
 def _handler_names(h):
